@@ -329,6 +329,15 @@ Definition rule_known_fragment_names : list N :=
                      | _ => []
                      end) doc_items.
 
+(* the closure computed by [referenced] is closed under "spreads of" (no fuel shortage):
+   RecursivelyReferencedFragments is a terminating worklist in the code; the model iterates
+   |fragments|+1 times and this test makes a shortage observable *)
+Definition closure_of (ss : list wsel) : list name :=
+  iter (Datatypes.S (List.length (w_frags W))) close_step (dedup (spread_names ss) []).
+Definition closure_stable (ss : list wsel) : bool :=
+  forallb (fun x => nmem x (closure_of ss)) (flat_map wfrag_spreads (closure_of ss)).
+Definition closures_stable : bool := forallb (fun o => closure_stable (wo_sel o)) (w_ops W).
+
 (* 11 NoUnusedFragments *)
 Definition used_fragments : list name := flat_map (fun o => referenced (wo_sel o)) (w_ops W).
 Definition rule_no_unused_fragments : list N :=
@@ -369,6 +378,14 @@ Definition rule_no_fragment_cycles : list N :=
                         if nmem (wf_name f) (cy_visited st) then st
                         else detect (Datatypes.S (List.length (w_frags W))) f [] [] st)
                      (w_frags W) {| cy_visited := []; cy_errs := [] |}).
+
+(* C19: the fragments the cycle search descends into (every call of detectCycleRecursive marks
+   its fragment visited and nothing else does) *)
+Definition cycle_search_calls : nat :=
+  List.length (cy_visited (fold_left (fun st f =>
+                        if nmem (wf_name f) (cy_visited st) then st
+                        else detect (Datatypes.S (List.length (w_frags W))) f [] [] st)
+                     (w_frags W) {| cy_visited := []; cy_errs := [] |})).
 
 (* 21 UniqueVariableNames *)
 Definition rule_unique_variable_names : list N :=
